@@ -1,7 +1,8 @@
-"""C20 — pubsub.Queue under deterministic schedules (T-sched); see queueref.py for the oracle."""
+"""C20 — pubsub.Queue and pubsub.Deque under deterministic schedules (T-sched); see queueref.py / dequeref.py for the oracles."""
 from . import common as C
 from . import schedlog as SL
 from . import queueref as Q
+from . import dequeref as D
 
 PROP = "C20"
 LEVEL = "proof"
@@ -13,26 +14,50 @@ RULE = ("2-5 logical threads over one Queue (unlimited, or hard limit<=6 with so
         "operation parked and something was woken; distinct = distinct case lines.")
 TRUSTED = ["sync.Mutex / sync.Cond (FIFO wake-up) / context modelled", "the verif hooks in pubsub/queue.go mark the segment "
            "boundaries (MANIFEST.hooks)", "burst credit is a float64: the executable model uses Lean's IEEE Float"]
-ASSUMPTIONS = ["segments are atomic (they run under q.mu)"]
+ASSUMPTIONS = ["segments are atomic (they run under q.mu / dq.mtx)"]
+DMIX = {"roles": ["pusher", "biter", "iter", "briter", "riter", "consumer", "producer", "biter", "briter"], "close": 0.3, "shuffle": True}
+DMIX_NOREMOVE = {"roles": ["pusher", "biter", "briter", "iter", "riter", "pusher"], "close": 0.3, "shuffle": True}
+RULE += (" Deque half: the same over one pubsub.Deque with iterators of the four kinds Producer / ProducerReverse / ProducerBlocking / "
+         "ProducerReverseBlocking (role mixes " + str(DMIX["roles"]) + " and, without removals, " + str(DMIX_NOREMOVE["roles"]) +
+         "); oracle: checks/dequeref.py (exact next item while the element yielded last is still linked; after its removal: only "
+         "values that were in the deque, no panic, return on Close / cancellation).")
+TRUSTED = TRUSTED + ["the verif hooks in pubsub/deque.go"]
 
 
 def gen(rng, tier, open_keys):
     n = 500 if tier == "quick" else 40000
-    return [Q.gen_case(rng, MIX) for _ in range(n)]
+    out = [Q.gen_case(rng, MIX) for _ in range(n)]
+    out += [D.gen_case(rng, DMIX) for _ in range(n)]
+    out += [D.gen_case(rng, DMIX_NOREMOVE) for _ in range(n)]
+    return out
 
 
 def corpus():
-    return ["(queue (cfg soft 3 1 2 1) (thread (add 1)) (thread (badd 2)) (thread (next 0) (next 0)) (thread (add 3)) (choices 0 0 0 0 0))",
+    return ["(dqprobe iter)",
+            # a blocking iterator standing on the last (first) element must be woken by a push at the back (front)
+            "(deque (cfg unlimited) (thread (pushb 1)) (thread (biter 1) (biter 1)) (thread (pushb 2)) (choices 0 0 0 0))",
+            "(deque (cfg unlimited) (thread (pushb 1)) (thread (briter 1) (briter 1)) (thread (pushf 2)) (choices 0 0 0 0))",
+            "(deque (cfg unlimited) (thread (pushf 1) (pushb 2) (close)) (thread (waitf) (waitb) (waitf)) (thread (biter 0) (biter 0) (biter 0)) (choices 1 1 0 0 1 1 0 0 0 0 0 0 0 0))",
+            "(deque (cfg soft 3 1 2 1) (thread (pushb 1) (pushb 2) (pushb 3) (pushb 4) (fpushb 5) (len)) (thread (riter 0) (riter 0) (iter 0)) (choices 0 1 0 1 0 1))",
+           ] + ["(queue (cfg soft 3 1 2 1) (thread (add 1)) (thread (badd 2)) (thread (next 0) (next 0)) (thread (add 3)) (choices 0 0 0 0 0))",
             "(qprobe iter)", "(queue (cfg unlimited) (thread (add 1) (add 2) (close)) (thread (wait) (wait) (wait)) (thread (next 0) (next 0) (next 0)) (choices 1 1 0 0 1 1 0 0 0 0 0 0 0 0))",
             "(queue (cfg soft 2 1 1 1) (thread (badd 1) (badd 2) (badd 3) (len)) (thread (remove) (wait)) (choices 0 0 0 0 0 0 0 0))"]
 
 
+def is_deque(line):
+    return line.startswith("(deque") or line.startswith("(dqprobe")
+
+
 def predicate(line, obs, allow_known=False):
-    return Q.full_predicate(line, obs)
+    return D.full_predicate(line, obs) if is_deque(line) else Q.full_predicate(line, obs)
 
 
-features = Q.features
-nontrivial = Q.nontrivial
+def features(line, obs):
+    return D.features(line, obs) if is_deque(line) else Q.features(line, obs)
+
+
+def nontrivial(line, obs):
+    return D.nontrivial(line, obs) if is_deque(line) else Q.nontrivial(line, obs)
 
 
 def shrink(line, fails):
